@@ -20,15 +20,21 @@ def kindOf : String → Except String Kind
   | "attribute" => .ok .attribute
   | "wildcard" => .ok .wildcard
   | "text" => .ok .text
+  | "elements" => .ok .elements
   | k => .error s!"bad kind {k}"
 
 def kindStr : Kind → String
   | .element => "element" | .attribute => "attribute" | .wildcard => "wildcard" | .text => "text"
+  | .elements => "elements"
 
 def fieldOf (j : Json) : Except String Field := do
   let k ← getStr j "kind"
+  let alts ← match j.getObjValD "alts" with
+    | .arr a => a.toList.mapM fun x => do
+        pure ({ name := ← optStr x "name", ns := ← optStr x "ns", cls := ← getNat x "cls" } : Alt)
+    | _ => pure []
   pure { name := ← getStr j "name", kind := ← kindOf (String.ofList k), mname := ← optStr j "mname",
-         ns := ← optStr j "ns", cls := ← optNat j "cls", wrapper := ← optStr j "wrapper" }
+         ns := ← optStr j "ns", cls := ← optNat j "cls", wrapper := ← optStr j "wrapper", alts := alts }
 
 def classOf (j : Json) : Except String ClassDef := do
   let hasNs ← getBool j "has_ns"
@@ -81,7 +87,8 @@ def errStr : Err → String
 
 def jVar (v : Var) : Json :=
   Json.arr #[jNat v.index, jStr v.name, jStr v.localName, jStr v.qname, jList jStr v.namespaces,
-    Json.str (kindStr v.kind), jOpt jNat v.cls, jOpt jStr v.wrapper]
+    Json.str (kindStr v.kind), jOpt jNat v.cls, jOpt jStr v.wrapper,
+    jList (fun (ch : ChoiceVar) => Json.arr #[jStr ch.qname, jNat ch.cls]) v.choices]
 
 def jMeta (m : Meta) : Json :=
   jObj [("cls", jNat m.cls), ("qname", jStr m.qname), ("ns", jOpt jStr m.nsUri),
